@@ -299,7 +299,7 @@ def _grad(i, color):
 
 
 def crafted_docs():
-    out = units_docs() + marker_docs() + [specular_doc(v) for v in SPECULAR_VALUES] + feimage_image_docs() + subregion_docs() + hidden_docs()
+    out = units_docs() + marker_docs() + [specular_doc(v) for v in SPECULAR_VALUES] + feimage_image_docs() + subregion_docs() + hidden_docs() + nested_docs()
     # a path whose fill AND stroke are different patterns; what the stroke pattern's content uses is used nowhere else
     for res, attr, definition in [
         ('only-g', 'fill="url(#only-g)"', _grad('only-g', 'red')),
@@ -525,4 +525,22 @@ def hidden_docs():
     obb = '<linearGradient id="hob"><stop offset="0" stop-color="white"/><stop offset="1" stop-color="red"/></linearGradient>'
     doc(obb, '<rect x="5" y="5" width="40" height="20" visibility="hidden" fill="url(#hob)"/><rect x="5" y="50" width="20" height="40" fill="url(#hob)"/>')
     doc(obb, '<rect x="5" y="5" width="40" height="20" visibility="hidden" fill="url(#hob)"/><rect x="5" y="50" width="20" height="40" visibility="collapse" stroke="url(#hob)"/>')
+    return out
+
+
+def nested_docs():
+    """a nested SVG image is converted with its own id generator: the outer and the inner tree both get `filter1` / `clipPath1` /
+    `mask1` (or both author the same id); the outer collections must hold both objects (identity, not id)"""
+    out = []
+    for outer_f, inner_f, defs in [
+        ('filter="blur(1)"', 'filter="blur(2)"', ''),
+        ('filter="drop-shadow(2 2 1 red)"', 'filter="sepia(0.5)"', ''),
+        ('filter="url(#same)"', 'filter="url(#same)"', '<filter id="same" filterUnits="userSpaceOnUse" x="0" y="0" width="90" height="90"><feOffset dx="%d"/></filter>'),
+    ]:
+        inner = ('<svg xmlns="http://www.w3.org/2000/svg" width="40" height="40">%s<rect width="30" height="30" fill="blue" %s/></svg>'
+                 % (defs % 3 if defs else '', inner_f))
+        img = '<image id="nim" x="50" y="50" width="40" height="40" xlink:href="data:image/svg+xml;base64,%s"/>' % base64.b64encode(inner.encode()).decode()
+        for order in (0, 1):
+            body = ['<rect id="nr" x="5" y="5" width="40" height="40" fill="green" %s/>' % outer_f, img]
+            out.append('<svg %s width="100" height="100">%s%s</svg>' % (NS, defs % 1 if defs else '', ''.join(body[::-1] if order else body)))
     return out
